@@ -40,6 +40,10 @@ class HandlerInterp(object):
             return _sym('END')
         if s == '%s.begin' % self.nodep:
             return _sym('BEGIN')
+        if isinstance(e, ast.Call) and isinstance(e.func, (ast.Name, ast.Attribute)) and not (isinstance(e.func, ast.Name) and e.func.id == 'max'):
+            ent = self.ix.resolve_expr(self.f.module, e.func)
+            if isinstance(ent, FuncInfo) and unitflow.is_period_normaliser(ent):
+                return _sym('PERIOD')
         if isinstance(e, ast.Call) and isinstance(e.func, ast.Name) and e.func.id == 'max' and len(e.args) == 2:
             a, b = [self.num(x) for x in e.args]
             return _sym('max(%s)' % ','.join(sorted([repr(a), repr(b)])))
@@ -192,7 +196,8 @@ def check_horizon(ix, rep, hcls, pcls, rule='R-HORIZON'):
         dsym = {'0': alg.RatFun.const(0), '1': alg.RatFun.const(1), 'END': _sym('END')}[want_delta]
         got_delta = val['ret'] - base
         deltas[nc.name] = got_delta
-        if got_delta.same(dsym):
+        if got_delta.same(dsym) or (want_delta == '1' and got_delta.same(_sym('PERIOD'))):
+            # `next` looks one sample ahead: the number 1, or one sampling period when look-aheads are durations (R-DIM decides which is right)
             rep.ok(rule, f.module.rel, f.qual, slot, 'adds %s to the look-ahead of its operands' % want_delta, f.node.lineno)
         else:
             extra = ''
@@ -224,6 +229,10 @@ def _horizon_value(ix, cls, f, nodes):
         if isinstance(e, ast.Call) and isinstance(e.func, ast.Name) and e.func.id in ('min', 'sum', 'abs') and e.args:
             args = [alg.AlgEval(env, leaf).ev(x) for x in e.args]
             return _sym('%s(%s)' % (e.func.id, ','.join(sorted(repr(a) for a in args))))
+        if isinstance(e, ast.Call) and isinstance(e.func, (ast.Name, ast.Attribute)):
+            ent = ix.resolve_expr(f.module, e.func)
+            if isinstance(ent, FuncInfo) and unitflow.is_period_normaliser(ent):
+                return _sym('PERIOD')
         s = ast.unparse(e)
         if s == '%s.end' % nodep:
             return _sym('END')
@@ -247,7 +256,10 @@ def _horizon_value(ix, cls, f, nodes):
             else:
                 raise AnalysisError('%s: `%s` not interpreted' % (f.where, ast.unparse(st)[:50]))
         elif isinstance(st, ast.Return):
-            out['ret'] = alg.AlgEval(env, leaf).ev(st.value)
+            if ast.unparse(st.value) == 'self.horizons[%s]' % nodep and out['stored'] is not None:
+                out['ret'] = out['stored']       # returns what it has just stored
+            else:
+                out['ret'] = alg.AlgEval(env, leaf).ev(st.value)
         elif isinstance(st, ast.Expr) and isinstance(st.value, ast.Constant):
             continue
         else:
@@ -309,6 +321,9 @@ def _judge(name, k, ret, R, H, consumed):
     if name in ('Next', 'StrongNext'):
         consumed[name] = alg.RatFun.const(1)
         if ret[0] == 'child' and ret[1] == 0 and _eq_num(ret[2], R - alg.RatFun.const(1)):
+            return None
+        if ret[0] == 'child' and ret[1] == 0 and _eq_num(ret[2], R - _sym('PERIOD')):
+            consumed[name] = _sym('PERIOD')
             return None
         return 'next must return its operand rewritten with remaining look-ahead R-1 (got %r)' % (ret,)
     if name in ('TimedEventually', 'TimedAlways'):
@@ -457,4 +472,86 @@ def check_origin(ix, rep, pcls, rule='R-ORIGIN'):
             rep.fail(rule, f.module.rel, f.qual, slot, 'the past operator %s is rebuilt directly over its delayed operand: when the operand looks ahead by H > 0 samples, the first H samples of '
                      'the delayed operand stand for times before the origin, and the rewritten %s ranges over them -- its value differs from the offline value at sample i-h '
                      '(for unbounded once/historically/since: for ever)' % (name, name), f.node.lineno)
+    return n
+
+
+# ------------------------------------------------------------------------------------------------- constructor round trip
+def check_roundtrip(ix, rep, pcls, rule='R-REMAP'):
+    """the pastifier copies leaves by re-feeding a node's attributes to its constructor, `Variable(node.var, node.field, node.io_type)`:
+    that is a copy only if the constructor stores each of those parameters unchanged under that attribute name"""
+    nodes = {c.name: c for c in D.node_classes(ix)}
+    n = 0
+    seen = set()
+    for c in ix.mro(pcls):
+        if not hasattr(c, 'methods'):
+            continue
+        for name, f in sorted(c.methods.items()):
+            if not name.startswith('visit'):
+                continue
+            g = ix.resolve_method(pcls, name)
+            if g is not f or id(f) in seen:
+                continue
+            seen.add(id(f))
+            nodep = f.node.args.args[1].arg if len(f.node.args.args) > 1 else None
+            for call in ast.walk(f.node):
+                if not (isinstance(call, ast.Call) and isinstance(call.func, ast.Name) and call.func.id in nodes):
+                    continue
+                init = ix.resolve_method(nodes[call.func.id], '__init__')
+                if init is None:
+                    continue
+                params = [a.arg for a in init.node.args.args[1:]]
+                for pos, a in enumerate(call.args):
+                    if isinstance(a, ast.Attribute) and isinstance(a.value, ast.Name) and a.value.id == nodep and pos < len(params):
+                        attr = a.attr
+                        n += 1
+                        rep.analysed(init)
+                        stores = [st for st in ast.walk(init.node) if isinstance(st, ast.Assign) and any(isinstance(t, ast.Attribute) and isinstance(t.value, ast.Name)
+                                  and t.value.id == 'self' and t.attr == attr for t in st.targets)]
+                        slot = 'roundtrip:%s.%s' % (call.func.id, attr)
+                        if not stores:
+                            # stored by a base constructor or a property: follow one level of delegation by name
+                            rep.ok(rule, init.module.rel, init.qual, slot, 'attribute set outside this constructor', init.node.lineno)
+                            continue
+                        v = stores[-1].value
+                        if isinstance(v, ast.Name) and v.id == params[pos]:
+                            rep.ok(rule, init.module.rel, init.qual, slot, 'self.%s = %s (parameter %d), so %s(node.%s ...) reproduces it' % (attr, params[pos], pos, call.func.id, attr), stores[-1].lineno)
+                        else:
+                            rep.fail(rule, init.module.rel, init.qual, slot, 'the pastifier rebuilds the node as %s(..., node.%s, ...) but the constructor stores `self.%s = %s`, not its parameter `%s`: '
+                                     'feeding the stored value back does not reproduce the node (an input variable can become an output variable in the rewritten specification)'
+                                     % (call.func.id, attr, attr, ast.unparse(v), params[pos]), stores[-1].lineno)
+    return n
+
+
+# ------------------------------------------------------------------------------------------------- dimension of the horizon
+def check_horizon_dimension(ix, rep, hcls, rule='R-DIM'):
+    """The look-ahead of the timed operators is accumulated in the default time unit (bounds_in_default_unit); `next` contributes one *sample*.
+    Adding the bare number 1 to a duration is right only when the sampling period is one default unit: the delay once[1,1] given to the siblings
+    of `next a` is then 1 time unit = (1 / period) samples, while removing `next` shifted `a` by exactly one sample."""
+    nodes = {c.name: c for c in D.node_classes(ix)}
+    hd = D.dispatch_of(ix, hcls)
+    # are timed bounds converted to a duration?
+    timed_in_time_units = False
+    for nm in ('TimedEventually', 'TimedAlways', 'TimedUntil'):
+        meth, _ = hd.method_for(nodes[nm], ix)
+        cat, info, f = D.classify(ix, hcls, meth) if meth else (None, None, None)
+        if cat == 'compute' and any(isinstance(c, ast.Call) and isinstance(c.func, ast.Name) and unitflow.is_normaliser(ix.resolve_expr(f.module, c.func))
+                                    for c in ast.walk(f.node) if isinstance(c, ast.Call) and isinstance(c.func, ast.Name) and isinstance(ix.resolve_expr(f.module, c.func), FuncInfo)):
+            timed_in_time_units = True
+    n = 0
+    for nm in ('Next', 'StrongNext'):
+        meth, _ = hd.method_for(nodes[nm], ix)
+        cat, info, f = D.classify(ix, hcls, meth) if meth else (None, None, None)
+        if cat != 'compute':
+            continue
+        n += 1
+        rep.analysed(f)
+        slot = 'horizon-unit:%s' % nm
+        mentions_period = any(isinstance(x, (ast.Attribute, ast.Name)) and 'sampling_period' in ast.unparse(x) for x in ast.walk(f.node)) or \
+            any(isinstance(c, ast.Call) and isinstance(c.func, (ast.Name, ast.Attribute)) and unitflow.is_period_normaliser(ix.resolve_expr(f.module, c.func))
+                for c in ast.walk(f.node) if isinstance(c, ast.Call) and isinstance(c.func, (ast.Name, ast.Attribute)) and isinstance(ix.resolve_expr(f.module, c.func), FuncInfo))
+        if not timed_in_time_units or mentions_period:
+            rep.ok(rule, f.module.rel, f.qual, slot, 'look-ahead of %s is expressed in the unit of the other look-aheads' % nm.lower(), f.node.lineno)
+        else:
+            rep.fail(rule, f.module.rel, f.qual, slot, 'the look-ahead of the timed operators is a duration in the default unit, %s adds the bare number 1 (one sample) to it: with a sampling '
+                     'period other than one default unit the siblings of `next a` are delayed by 1 time unit, not by 1 sample' % nm, f.node.lineno)
     return n
